@@ -58,7 +58,57 @@ FAMILIES = [
 ]
 
 
+def rule_digitless_exponent(run, prog):
+    """R-11.5: wherever a float pattern's Exponent group can capture an exponent marker without any digit, the
+    sub-parser's BAD_EXPONENT emission must be reachable for that pattern type."""
+    from ..regexlang import Rep, UNIVERSE, UnsupportedRegex, from_template, group_nfa, intersection_witness
+    run.rule("R-11.5", "LANG + guard: for each float pattern whose Exponent group can capture a digit-less exponent (language "
+             "intersection with the digit-free strings is not empty), the guard of the BAD_EXPONENT emission does not exclude "
+             "that pattern's type", floor=3)
+    lm = prog.mod("lexer/lexer.py")
+    pf = prog.method("Lexer", "parse_float_literal")
+    # type labels:  if match := PATTERN.match(src): type = "<label>"
+    label_of = {}
+    for n in walk_fn(pf.node):
+        if isinstance(n, ast.If) and isinstance(n.test, ast.NamedExpr) and isinstance(n.test.value, ast.Call) \
+                and isinstance(n.test.value.func, ast.Attribute) and n.test.value.func.attr == "match":
+            pat = text(n.test.value.func.value)
+            for st in n.body:
+                if isinstance(st, ast.Assign) and text(st.targets[0]) == "type" and isinstance(st.value, ast.Constant):
+                    label_of[pat] = st.value.value
+    run.require(len(label_of) >= 3, "anchor vanished: the pattern-type dispatch of parse_float_literal")
+    # guard of the BAD_EXPONENT emission
+    em = [n for n in walk_fn(pf.node) if isinstance(n, ast.Call) and text(n.func) == "Error.from_name" and n.args
+          and isinstance(n.args[0], ast.Constant) and n.args[0].value == "BAD_EXPONENT"]
+    run.require(len(em) >= 1, "anchor vanished: BAD_EXPONENT emission in parse_float_literal")
+    guards = [a for a in ancestors(em[0]) if isinstance(a, ast.If)]
+    allowed_types = None      # None = every type
+    if guards:
+        from ..facts import conjuncts
+        for c in conjuncts(guards[0].test):
+            if isinstance(c, ast.Compare) and len(c.ops) == 1 and text(c.left) == "type":
+                v = fold_in_fn(c.comparators[0], pf, default=None)
+                if isinstance(c.ops[0], ast.Eq) and isinstance(v, str):
+                    allowed_types = {v}
+                elif isinstance(c.ops[0], ast.In) and isinstance(v, (tuple, list)):
+                    allowed_types = set(v)
+    nodigit = frozenset(c for c in UNIVERSE if not c.isdigit())
+    for pat, label in sorted(label_of.items()):
+        try:
+            rc = fold_name(pat, lm)
+            g = group_nfa(rc.pattern, rc.flags, "Exponent")
+        except (Unknown, UnsupportedRegex) as e:
+            raise AnalysisError(f"{pat}: cannot analyse the Exponent group: {e}")
+        w, st = intersection_witness(g, from_template([Rep(nodigit, 1, None)]))
+        covered = allowed_types is None or label in allowed_types
+        run.ob("R-11.5", f"{pf.key}::digitless-exponent[{label}]", w is None or covered,
+               f"the Exponent group of {pat} can capture {w!r} (an exponent without digits) but BAD_EXPONENT is only emitted "
+               f"for type(s) {sorted(allowed_types) if allowed_types else 'all'}: such a constant gets no diagnostic",
+               guards[0].test if guards else em[0], witness=w, product_states=st["states"])
+
+
 def check(run, prog):
+    rule_digitless_exponent(run, prog)
     lm = prog.mod("lexer/lexer.py")
 
     def table(name):
